@@ -365,6 +365,23 @@ def runtime_contracts(chk):
         Keyword(name, from_parser=True)(D())
         chk.ob(f"runtime/Keyword.__call__ looks up mangle(name)/{cls}", asked == [mangle(name)], "structural", "exhaustive_finite",
                detail=f"{asked} vs {mangle(name)!r}")
+        # ... with a default argument too: (:s obj default) asks for the same key, returns the default exactly when that key is
+        # missing, and never finds the unmangled spelling
+        asked2 = []
+
+        class D2(dict):
+            def __getitem__(self, k):
+                asked2.append(k)
+                return dict.__getitem__(self, k)
+        kw = Keyword(name, from_parser=True)
+        m = mangle(name)
+        r_hit = kw(D2({m: "hit"}), "dflt")
+        r_miss = kw(D2({}), "dflt")
+        r_raw = kw(D2({name: "raw"} if name != m else {}), "dflt")
+        okd = r_hit == "hit" and r_miss == "dflt" and r_raw == "dflt" and set(asked2) == {m}
+        chk.ob(f"runtime/Keyword.__call__ with a default looks up mangle(name) and nothing else/{cls}", okd, "structural", "exhaustive_finite",
+               detail=f"hit={r_hit!r} miss={r_miss!r} raw-spelling-only={r_raw!r} keys asked={sorted(set(asked2))}",
+               replay=None if okd else {"confirmed": True, "input": f"(:{name} {{{m!r} \"hit\"}} \"dflt\")", "observed": repr((r_hit, r_miss, r_raw))})
         # install_macro stores under mangle(name); macroexpand finds it under mangle(head)
         import hy.macros as hmac
         mod = types.ModuleType("hv_c34_mod")
